@@ -11,9 +11,9 @@ CHECKS = {
    technique="stateful property-based testing: proptest-generated multi-lifetime scenarios against the real HtlcManager/ClnDatastore/PayPaymentProvider over a simulated node; invariant monitor at every resolve and pay",
    text="Generated-input search (quick ~10^4, thorough ~10^5 scenarios): 1-3 payments, HTLCs carrying the invoice of another hash, late HTLCs, crashes and write faults; at every resolve the key must hash to the HTLC's own hash and stem from a completed part or Succeeded record; at every pay no held HTLC carrying that invoice may have another hash. Right level: the defect class (D1) needs a particular request shape plus a full lifecycle, which a generator reaches in every run.",
    note=W),
- "C02": dict(engine="WORLD", category="fault_enumeration", design="6 C02",
-   technique="stateful property-based testing with fault injection: generated schedules + systematic crash-point / write-fault enumeration (thorough) + read-fault profile (thorough); invariant monitor at every fail answer",
-   text="Every fail answer of a trampoline HTLC is checked against the node's part table and running pay commands at that instant, over generated interleavings (part resolutions between the RPCs of wait_payment, pay outcomes leaving parts pending, restarts onto pending records) and injected write faults; thorough adds every single crash point and write fault of 150 base histories, every RPC of 200 two-attempt histories delayed, and RPC read errors (single, pairs, bursts of 3-4). A structured generator overlaps two lifecycles of one hash with one RPC of the first withheld. Fund-loss properties need one bad ordering out of thousands, which is what schedule search is for.",
+ "C02": dict(engine="WORLD+PAR+E2E", category="fault_enumeration", design="6 C02",
+   technique="stateful property-based testing with fault injection: generated schedules + systematic crash-point / write-fault enumeration (thorough) + read-fault profile (thorough); invariant monitor at every fail answer; parallel stress phase (multi-thread runtime, perturbed schedule) with answer/pay-call oracles",
+   text="Every fail answer of a trampoline HTLC is checked against the node's part table and running pay commands at that instant, over generated interleavings (part resolutions between the RPCs of wait_payment, pay outcomes leaving parts pending, restarts onto pending records) and injected write faults; thorough adds every single crash point and write fault of 150 base histories, every RPC of 200 two-attempt histories delayed, and RPC read errors (single, pairs, bursts of 3-4). A structured generator overlaps two lifecycles of one hash with one RPC of the first withheld. Fund-loss properties need one bad ordering out of thousands, which is what schedule search is for. A PAR phase releases all HTLCs of 1-10 funded sets at the same instant on an 8-thread runtime (real HtlcManager, stub collaborators, generated stalls at log call sites) and checks the answers and the pay calls.",
    note=W+" Known findings K1/K3 (read faults only) are listed in known_findings.json."),
  "C03": dict(engine="WORLD", category="exploration", design="6 C03",
    technique="stateful property-based testing: invariant monitor over the arguments of every pay RPC versus the HTLCs held at that instant (u128 reference arithmetic)",
@@ -23,17 +23,17 @@ CHECKS = {
    technique="stateful property-based testing: reference bound computed from the HTLCs held and the height told at the intent write, compared with maxdelay of every pay RPC",
    text="maxdelay <= min(policy delta, sat(sat(min expiry - height told) - safety delta)) with heights advancing (notifications and silent changes) while the set is collected, expiries clustered around the boundaries, extreme delta pairs (thorough); a low-relative-expiry HTLC before funding must prevent the pay.",
    note=W),
- "C05": dict(engine="WORLD", category="fault_enumeration", design="6 C05",
-   technique="stateful property-based testing with crash-point enumeration: invariant monitor at every pay RPC against the node's sendpay table",
-   text="No pay while a part of that hash is pending/complete or another pay runs; at most one completed payment group per hash. Generated overlaps of two lifecycles, crashes around intent writes and pay, stored histories Free/Pending/Succeeded; thorough enumerates every crash point and write fault of 150 base histories.",
+ "C05": dict(engine="WORLD+PAR", category="fault_enumeration", design="6 C05",
+   technique="stateful property-based testing with crash-point enumeration: invariant monitor at every pay RPC against the node's sendpay table; parallel stress phase (multi-thread runtime, perturbed schedule) with answer/pay-call oracles",
+   text="No pay while a part of that hash is pending/complete or another pay runs; at most one completed payment group per hash. Generated overlaps of two lifecycles, crashes around intent writes and pay, stored histories Free/Pending/Succeeded; thorough enumerates every crash point and write fault of 150 base histories. A PAR phase releases all HTLCs of 1-10 funded sets at the same instant on an 8-thread runtime (real HtlcManager, stub collaborators, generated stalls at log call sites) and checks the answers and the pay calls.",
    note=W),
- "C06": dict(engine="WORLD+E2E+FUZZ", category="exploration", design="6 C06",
+ "C06": dict(engine="WORLD+E2E+PAR+FUZZ", category="exploration", design="6 C06",
    technique="property-based testing and fuzzing: byte-level request generators in WORLD (hang = unanswered after a fair drain in the model, panic hook), the same requests through the real binary (reply shape), libFuzzer campaign in thorough",
-   text="Arbitrary payload/metadata bytes (truncated varints at every width, oversized lengths), numeric extremes, up to 6 HTLCs per hash, write faults (quick) and read faults (thorough): after the fair drain every call has exactly one well-formed answer, no task panicked, incomplete sets are failed within one MPP timeout. The real binary decides the reply shape (JSON-RPC error replies, panics on stderr, process exit with unanswered calls, a lost reply while later requests are answered at once); requests are also written in two pieces. Thorough adds a libFuzzer campaign over bytes -> requests + stub collaborator answers (target `request`).",
+   text="Arbitrary payload/metadata bytes (truncated varints at every width, oversized lengths), numeric extremes, up to 6 HTLCs per hash, write faults (quick) and read faults (thorough): after the fair drain every call has exactly one well-formed answer, no task panicked, incomplete sets are failed within one MPP timeout. The real binary decides the reply shape (JSON-RPC error replies, panics on stderr, process exit with unanswered calls, a lost reply while later requests are answered at once); requests are also written in two pieces. Thorough adds a libFuzzer campaign over bytes -> requests + stub collaborator answers (target `request`). E2E also sends bursts of 200 forwards in one write and reports a process that sits idle with unanswered requests; a PAR phase (same-instant arrival on 8 threads) checks that no task panics.",
    note=W+" E2E uses real time only to bound waits (missing reply without a panic line = exit 2). Known finding K2 (todo!() on read fault) listed in known_findings.json."),
- "C07": dict(engine="WORLD", category="exploration", design="6 C07",
-   technique="stateful property-based testing: per-instant batch monitor (all held HTLCs of a hash answered together, identically) and a reference rule for rejecting HTLCs",
-   text="Whenever one HTLC of a hash is answered, all HTLCs held for it are answered in the same instant with identical responses; a rejecting HTLC (conflicting invoice/amount, low expiry, low declared total) before funding means no pay for that lifecycle. 2-5 parts, rejecting HTLC at every position, arrivals while the state fetch is withheld.",
+ "C07": dict(engine="WORLD+PAR", category="exploration", design="6 C07",
+   technique="stateful property-based testing: per-instant batch monitor (all held HTLCs of a hash answered together, identically) and a reference rule for rejecting HTLCs; parallel stress phase (multi-thread runtime, perturbed schedule) with answer/pay-call oracles",
+   text="Whenever one HTLC of a hash is answered, all HTLCs held for it are answered in the same instant with identical responses; a rejecting HTLC (conflicting invoice/amount, low expiry, low declared total) before funding means no pay for that lifecycle. 2-5 parts, rejecting HTLC at every position, arrivals while the state fetch is withheld. A PAR phase releases all HTLCs of 1-10 funded sets at the same instant on an 8-thread runtime (real HtlcManager, stub collaborators, generated stalls at log call sites) and checks the answers and the pay calls.",
    note=W),
  "C08": dict(engine="WORLD", category="fault_enumeration", design="6 C08",
    technique="stateful property-based testing with fault enumeration: invariant over (datastore, sendpay table) after every applied RPC effect, i.e. on every crash image",
@@ -47,9 +47,9 @@ CHECKS = {
    technique="property-based testing against a reference classifier: cartesian-biased single-HTLC scenarios, class equality and pay-argument checks",
    text="invoice {amount, amountless} x signature {valid, explicit payee, invalid, not utf-8, not bolt11} x hints x hash {=, !=} x amount field {absent, equal, +-1, leading zeros, 9 bytes, empty, raw} x flag; expected class from a classifier written from the property text; oracle: continue/fail/held as expected, pay carries exactly invoice and amount, notification names the verifying key.",
    note=W),
- "C11": dict(engine="WORLD", category="exploration", design="6 C11",
-   technique="stateful property-based testing in virtual time: timing monitor on fail answers of incomplete sets (paused tokio clock, 5 s grid)",
-   text="Incomplete sets (also after 1-3 attempts the plugin itself concluded): answer 0x2019, never left unanswered, no pay, t_fail in [t_fetch+T, t_fetch+T+1 s] for fresh hashes, <= t_recovery+T after a restart, immediate when the attempt is older than T+5 s. Timeouts 0-120 s, arrival patterns over ticks, restarts with downtimes on the grid.",
+ "C11": dict(engine="WORLD+PAR", category="exploration", design="6 C11",
+   technique="stateful property-based testing in virtual time: timing monitor on fail answers of incomplete sets (paused tokio clock, 5 s grid); parallel stress phase (multi-thread runtime, perturbed schedule) with answer/pay-call oracles",
+   text="Incomplete sets (also after 1-3 attempts the plugin itself concluded): answer 0x2019, never left unanswered, no pay, t_fail in [t_fetch+T, t_fetch+T+1 s] for fresh hashes, <= t_recovery+T after a restart, immediate when the attempt is older than T+5 s. Timeouts 0-120 s, arrival patterns over ticks, restarts with downtimes on the grid. A PAR phase releases all HTLCs of 1-10 funded sets at the same instant on an 8-thread runtime (real HtlcManager, stub collaborators, generated stalls at log call sites) and checks the answers and the pay calls.",
    note=W+" One known finding (lifecycle-overlap race answering 0x2002) in known_findings.json."),
  "C12": dict(engine="PURE+WORLD", category="exploration", design="6 C12",
    technique="property-based testing: proptest + fixed boundary grid against a u128 reference model, in an overflow-checking and a wrapping build; WORLD monitor for the rejection bytes",
@@ -119,8 +119,9 @@ def main():
         "engines": [
             {"name": "PURE", "path": "harness/src/props/c12.rs, c18.rs", "serves_properties": ["C12", "C18"], "kind_free_text": "proptest + exhaustive small scopes on functions of messages.rs / tlv.rs against reference models (refmodel.rs); `pure` crate = wrapping build"},
             {"name": "WORLD", "path": "harness/src/world.rs, node.rs, scen.rs, monitors.rs", "serves_properties": ["C01","C02","C03","C04","C05","C06","C07","C08","C09","C10","C11","C12","C13","C14","C15","C16","C20"], "kind_free_text": "real HtlcManager + ClnDatastore + PayPaymentProvider<Rpc> + BlockWatcher against a simulated lightningd over a unix socket in a paused, seeded tokio runtime; scenario = proptest value (payments, HTLCs, schedule, faults, crashes); monitors = invariants at node-side instants"},
+            {"name": "PAR", "path": "harness/src/props/par.rs", "serves_properties": ["C02","C05","C06","C07","C11"], "kind_free_text": "real HtlcManager on a multi-thread tokio runtime with in-memory stub collaborators; all handlers released behind one barrier, schedule perturbed by generated stalls at the plugin's log call sites; not schedule-deterministic (replay repeats a case up to 25 times)"},
             {"name": "WIRE", "path": "harness/src/props/c17.rs", "serves_properties": ["C17"], "kind_free_text": "real cln_plugin driver over in-memory duplex pipes with generated chunking and handler completion order"},
-            {"name": "E2E", "path": "harness/src/e2e.rs, props/c19.rs", "serves_properties": ["C06","C13","C17","C19","C20"], "kind_free_text": "the real binary target/debug/trampoline (rebuilt from /repo) on pipes, against the simulated node with an autopilot"},
+            {"name": "E2E", "path": "harness/src/e2e.rs, props/c19.rs", "serves_properties": ["C02","C06","C13","C17","C19","C20"], "kind_free_text": "the real binary target/debug/trampoline (rebuilt from /repo) on pipes, against the simulated node with an autopilot"},
             {"name": "FUZZ", "path": "harness/fuzz", "serves_properties": ["C18","C06"], "kind_free_text": "cargo-fuzz/libFuzzer targets with the semantic oracle inside (thorough tier)"},
         ],
         "checks": checks,
